@@ -133,6 +133,27 @@ def run(ctx):
                 res3 = lentil.zernike_remove(L(opd), mask, modes, **kw)
                 if not np.allclose(res3 * (mask != 0), 0, atol=tol * (1 + np.abs(opd).max() / unit)):
                     ctx.violation(dict(sig, kind='pure-modes-not-removed'), dict(detail, max_residual=float(np.abs(res3 * (mask != 0)).max())), case=None)
+    # a set of modes is a set of whole numbers whatever container and integer type it arrives in
+    mk_t = lentil.circle((24, 25), 9, shift=(1, -2), antialias=False)
+    modes_t = [4, 2, 7]
+    c_t = np.array([0.5, -1.0, 0.25])
+    co_t = np.zeros(7)
+    for k_, j_ in enumerate(modes_t):
+        co_t[j_ - 1] = c_t[k_]
+    opd_t = lentil.zernike_compose(mk_t, co_t)
+    for form in (tuple, np.int8, np.uint8, np.int16, np.uint16, np.int32, np.uint32, np.int64, np.uint64, np.uintp):
+        mt_ = tuple(modes_t) if form is tuple else np.array(modes_t, dtype=form)
+        ctx.case(('mode-container', getattr(form, '__name__', str(form))))
+        try:
+            f_t = lentil.zernike_fit(opd_t, mk_t, mt_)
+            r_t = lentil.zernike_remove(opd_t, mk_t, mt_)
+            b_t = lentil.zernike_basis(mk_t, mt_)
+            ok = np.allclose(f_t, c_t, rtol=0, atol=1e-10) and np.allclose(r_t[mk_t != 0], 0, atol=1e-10) and b_t.shape[0] == 3
+            err = None
+        except Exception as ex:
+            ok, err = False, repr(ex)[:160]
+        if not ok:
+            ctx.violation({'kind': 'mode-set-depends-on-its-integer-type', 'type': getattr(form, '__name__', str(form))}, {'modes': modes_t, 'error': err}, case=None)
     # many modes on a small off-centre segment with global coordinates: independent but badly conditioned (cond ~ 1e7..1e9)
     big = lentil.hexagon((128, 128), 9, shift=(30, -22), antialias=False)
     grho, gtheta = lentil.zernike_coordinates(lentil.circle((128, 128), 60, antialias=False))
